@@ -70,15 +70,19 @@ pub fn value_corpus(k: usize, cap: usize, per_shape_limit: usize) -> Vec<(Shape,
     // and byte path keep separate bookkeeping)
     let mut mixed_a = vec![];
     let mut mixed_b = vec![];
-    for p in [200usize, 251, 253] {
+    // (only for the framing checks, which pass cap >= 256: C11 enumerates every piece-wise delivery of each value and
+    // must not receive these long values)
+    for p in if cap >= 256 { vec![200usize, 251, 253] } else { vec![] } {
         for e in [1usize, 50, 52, 100] {
             let bytes: Vec<Val> = (0..p).map(|i| Val::U8(1 + (i % 200) as u8)).collect();
             mixed_a.push(Val::Tuple(vec![Val::Seq(bytes.clone()), Val::Str("x".repeat(e))]));
             mixed_b.push(Val::Tuple(vec![Val::Str("y".repeat(p)), Val::Seq(bytes[..e].to_vec())]));
         }
     }
-    out.push((Shape::Tuple(vec![Shape::Seq(Box::new(Shape::U8)), Shape::Str]), mixed_a));
-    out.push((Shape::Tuple(vec![Shape::Str, Shape::Seq(Box::new(Shape::U8))]), mixed_b));
+    if !mixed_a.is_empty() {
+        out.push((Shape::Tuple(vec![Shape::Seq(Box::new(Shape::U8)), Shape::Str]), mixed_a));
+        out.push((Shape::Tuple(vec![Shape::Str, Shape::Seq(Box::new(Shape::U8))]), mixed_b));
+    }
     out
 }
 
